@@ -28,8 +28,7 @@ def steady_cases(draw, tier="quick"):
          "b0": draw(gen.vec(n)), "B": draw(gen.mat(n, k)), "theta": draw(gen.vec(k, -1, 1)),
          "solver": draw(st.sampled_from(["default", "np_solve", "spsolve", "cg", "lstsq", "user"])),
          "grid": sorted(set(draw(st.lists(st.integers(0, 40), min_size=n, max_size=n, unique=True)))),
-         "obs": draw(st.sampled_from(["equal", "none", "subset", "offnode", "samelen"])), "int_ic": draw(st.sampled_from([False, False, True])),
-         "second_parameter": draw(st.booleans()),
+         "obs": draw(st.sampled_from(["equal", "none", "subset", "offnode", "samelen"])),
          "obs_frac": draw(st.lists(st.floats(0.02, 0.98), min_size=1, max_size=5)),
          "obs_idx": draw(st.lists(st.integers(0, n - 1), min_size=1, max_size=n, unique=True)),
          "omap": draw(st.sampled_from(["none", "square", "first2", "affine"])),
@@ -150,7 +149,8 @@ def run_steady(c, rec):
             "solution after re-assembly does not satisfy the new system")
     # the solution grid re-assigned on the live object (public setter): observation follows the grids as they are now
     if gobs is not None and len(grid) >= 4:
-        grid2 = np.asarray(grid, dtype=float) + 0.25 * np.min(np.diff(np.asarray(grid, dtype=float)))
+        grid2 = np.asarray(grid, dtype=float).copy()
+        grid2[1:-1] += 0.25 * np.min(np.diff(grid2))      # interior nodes moved, end points (and so the hull) kept
         lo, hi = grid2[0], grid2[-1]
         inside = np.all((np.asarray(gobs) >= lo) & (np.asarray(gobs) <= hi))
         refused, _ = refuses(lambda: setattr(pde, "grid_sol", grid2.copy()))
@@ -186,6 +186,7 @@ def time_cases(draw, tier="quick"):
          "tidx": draw(st.lists(st.integers(0, nt - 1), min_size=1, max_size=nt, unique=True)),
          "tfrac": draw(st.lists(st.floats(0.05, 0.95), min_size=1, max_size=3, unique=True)),
          "grid": sorted(set(draw(st.lists(st.integers(0, 40), min_size=n, max_size=n, unique=True)))),
+         "int_ic": draw(st.sampled_from([False, False, True])), "second_parameter": draw(st.booleans()),
          "obs": draw(st.sampled_from(["equal", "none", "subset", "offnode", "samelen"])),
          "obs_frac": draw(st.lists(st.floats(0.02, 0.98), min_size=1, max_size=5)),
          "obs_idx": draw(st.lists(st.integers(0, n - 1), min_size=1, max_size=n, unique=True)),
